@@ -13,7 +13,9 @@ import (
 // inside and after the run's block-time window, some empty, some at CREATE addresses of wallet 0.
 func protectedGenesis(rng *rand.Rand) (GenesisSpec, []int64) {
 	g, _ := mixedGenesis(rng)
-	g.MaxGas = pick(rng, int64(40_000_000), 40_000_000, -1)
+	// crowded blocks too: the block gas runs out inside the history (replicas must agree on which tx it hits), and
+	// the base fee rises as well as falls
+	g.MaxGas = pick(rng, int64(40_000_000), 40_000_000, -1, 3_000_000, 1_200_000)
 	g.BaseFee = pick(rng, "1000000000", "7", "0")
 	g.MinGasPrice = pick(rng, "0", "0", "0.5")
 	var ends []int64
